@@ -94,6 +94,50 @@ fn share_two_chance_nodes(t: &mut Tree, r: &mut Rng) -> Option<(usize, usize)> {
     Some((a, b))
 }
 
+/// set the weights of the two chance nodes (preorder indices) to 1, 2, 4, ... (both the same)
+fn powers_of_two_weights(t: &mut Tree, a: usize, b: usize) -> bool {
+    fn rec(t: &mut Tree, at: &mut usize, a: usize, b: usize, done: &mut usize) {
+        *at += 1;
+        match t {
+            Tree::T { .. } => {}
+            Tree::C { kids, .. } => {
+                if *at == a || *at == b {
+                    for (j, k) in kids.iter_mut().enumerate() {
+                        k.w = crate::tree::Num::I(1 << (j % 4));
+                    }
+                    *done += 1;
+                }
+                kids.iter_mut().for_each(|k| rec(&mut k.t, at, a, b, done));
+            }
+            Tree::P { kids, .. } => kids.iter_mut().for_each(|k| rec(&mut k.t, at, a, b, done)),
+        }
+    }
+    let mut done = 0;
+    rec(t, &mut 0, a, b, &mut done);
+    done == 2
+}
+
+/// divide the weights of the chance nodes at the preorder indices by `div` in floating point (a presentation of the
+/// same game whenever the quotients stay exactly proportional)
+fn divide_weights(t: &mut Tree, nodes: &[usize], div: f64) {
+    fn rec(t: &mut Tree, at: &mut usize, nodes: &[usize], div: f64) {
+        *at += 1;
+        match t {
+            Tree::T { .. } => {}
+            Tree::C { kids, .. } => {
+                if nodes.contains(at) {
+                    for k in kids.iter_mut() {
+                        k.w = crate::tree::Num::F(k.w.f() / div);
+                    }
+                }
+                kids.iter_mut().for_each(|k| rec(&mut k.t, at, nodes, div));
+            }
+            Tree::P { kids, .. } => kids.iter_mut().for_each(|k| rec(&mut k.t, at, nodes, div)),
+        }
+    }
+    rec(t, &mut 0, nodes, div);
+}
+
 fn has_multi(t: &Tree, pl: u8) -> bool {
     match t {
         Tree::T { .. } => false,
@@ -168,9 +212,16 @@ pub fn gen(args: &Args) {
             }
             nodes.sort();
         }
+        let mut div = 0i64;
         if let Some((a, b)) = shared {
             // one node of the shared chance infoset only
             nodes = vec![if r.chance(0.5) { a } else { b }];
+            // every third such case: the constant is 7/10 or 1/10, NOT exact in binary.  The weights of the shared infoset
+            // are made powers of two first, so that the rescaled doubles are still EXACTLY proportional (doubling is
+            // exact); only the rounding of the normalisation distinguishes the two nodes
+            if id % 3 == 0 && powers_of_two_weights(&mut t, a, b) {
+                div = 10;
+            }
         }
         let mut pl = 1 + r.below(2);
         if kind == "wrapp" && r.chance(0.75) {
@@ -185,6 +236,7 @@ pub fn gen(args: &Args) {
             }
         }
         let c = match kind {
+            "rescale" if div != 0 => *r.pick(&[7i64, 1, 3]),
             "scale" => *r.pick(&[2i64, 3, 7, 4]),
             "shift" => *r.pick(&[1i64, 5, -2, 7]),
             "wrapc" => *r.pick(&[1i64, 5]),
@@ -194,7 +246,7 @@ pub fn gen(args: &Args) {
         let budget = id % 3;
         let par = cfr::gen_rational_params(&mut r, budget);
         out.line(&json!({"id": id, "tree": t, "prof": prof, "par": par, "T": budget,
-            "xf": {"kind": kind, "nodes": nodes, "c": c, "pl": pl}}));
+            "xf": {"kind": kind, "nodes": nodes, "c": c, "pl": pl, "div": div}}));
     }
 }
 
@@ -346,7 +398,12 @@ pub fn replay(args: &Args) {
             continue;
         };
         let t: Tree = serde_json::from_value(case["tree"].clone()).unwrap();
-        let t2: Tree = serde_json::from_value(exp["tree2"].clone()).unwrap();
+        let mut t2: Tree = serde_json::from_value(exp["tree2"].clone()).unwrap();
+        let div = case["xf"]["div"].as_i64().unwrap_or(0);
+        if div != 0 {
+            let nodes: Vec<usize> = case["xf"]["nodes"].as_array().unwrap().iter().map(|x| x.as_u64().unwrap() as usize).collect();
+            divide_weights(&mut t2, &nodes, div as f64);
+        }
         let prof = profile_of(&case["prof"]);
         let prof2 = profile_of(&exp["prof2"]);
         let kind = case["xf"]["kind"].as_str().unwrap();
